@@ -366,6 +366,7 @@ def check(ctx):
     # "0% while time < delay", as the evaluation sees it: prepare_frame maps NotStarted to position 0.0 (C10/R1)
     from rules import c10
     c10.rules_prepare_frame(ctx, "R7")
+    c10.rules_loop_state(ctx, "R7", tab)     # "which cycle" is told by the same quotient as the phase
     ctx.notes.append("not decided: linear rise and exact periodicity as numeric relations over all f32 times")
     ctx.assumptions += ["cycle duration D finite and > 0, time finite (valid configuration)",
                         "f32 division, remainder, subtraction are correctly rounded and monotone"]
